@@ -690,16 +690,21 @@ Fixpoint fix_choice (fuel : nat) (e : entry) : entry :=
     end
   end.
 
-Fixpoint depth (fuel : nat) (e : entry) : nat :=
-  match fuel with
-  | O => O
-  | S f =>
-    S (fold_right Nat.max O
-         (match e_dir e with Some d => map (fun kv => depth f (snd kv)) d | None => [] end ++
-          match e_rpc e with
-          | Some (i, o) => (match i with Some x => [depth f x] | None => [] end) ++
-                           (match o with Some x => [depth f x] | None => [] end)
-          | None => []
+(* the height of a tree (a leaf has height 1); FixChoice in the Go code is plain structural recursion over
+   e.Dir and the rpc's input/output, so the fuel of [fix_choice] is derived from this structural measure *)
+Fixpoint height (e : entry) : nat :=
+  match e with
+  | Entry _ _ _ _ _ _ _ _ _ _ dir rpc =>
+    S (Nat.max
+         (match dir with
+          | Some d => (fix hl (l : list (str * entry)) : nat :=
+                         match l with [] => O | (_, c) :: r => Nat.max (height c) (hl r) end) d
+          | None => O
+          end)
+         (match rpc with
+          | Some (i, o) => Nat.max (match i with Some x => height x | None => O end)
+                                   (match o with Some x => height x | None => O end)
+          | None => O
           end))
   end.
 
@@ -896,7 +901,7 @@ Definition Process (order : list str) : result :=
       (* apply augments until no progress, fix up the choices, and start over as long as that made
          progress (an augment path may lead through a case that FixChoice inserts) *)
       let fix_all (F : forest) : forest :=
-        let fuelF := S (fold_right Nat.max O (map (fun kv => depth (entry_fuel SC) (snd kv)) F)) in
+        let fuelF := S (fold_right Nat.max O (map (fun kv => height (snd kv)) F)) in
         (* every level costs at most two units of fuel: the case that is inserted and its member *)
         map (fun kv => (fst kv, fix_choice (2 * S fuelF) (snd kv))) F in
       let '(F2, err1, P1, mods1) :=
